@@ -20,6 +20,7 @@ type TextVector struct {
 	File   string     `json:"file"` // alternative to src: path of a corpus file
 	Layout string     `json:"layout"`
 	Note   string     `json:"note"`
+	Header string     `json:"header"`
 }
 
 func (tv *TextVector) Vector() (*Vector, error) {
@@ -40,7 +41,7 @@ func (tv *TextVector) Vector() (*Vector, error) {
 		src = string(b)
 	}
 	return &Vector{ID: tv.ID, Prop: tv.Prop, Class: tv.Class, Metas: tv.Metas, Pat: pat, Plus: plus,
-		Src: src, Layout: tv.Layout, Note: tv.Note}, nil
+		Src: src, Layout: tv.Layout, Note: tv.Note, Header: tv.Header}, nil
 }
 
 func cmdTextVec(in, out string) error {
